@@ -169,3 +169,52 @@ impl OrphanBlockPool {
         self.inner.read().leaders.len()
     }
 }
+
+/// verification hook: read-only dump of the three maps of the pool; add-only, off by default
+#[cfg(feature = "verif-hooks")]
+#[allow(clippy::type_complexity)]
+impl OrphanBlockPool {
+    /// (`blocks`: parent -> [(inner key, hash of the stored block, parent of the stored block)],
+    ///  `parents`: hash -> parent, `leaders`), each in the map's own iteration order
+    pub fn verif_dump(
+        &self,
+    ) -> (
+        Vec<(
+            ParentHash,
+            Vec<(packed::Byte32, packed::Byte32, ParentHash)>,
+        )>,
+        Vec<(packed::Byte32, ParentHash)>,
+        Vec<ParentHash>,
+    ) {
+        let inner = self.inner.read();
+        (
+            inner
+                .blocks
+                .iter()
+                .map(|(p, m)| {
+                    (
+                        p.clone(),
+                        m.iter()
+                            .map(|(k, b)| (k.clone(), b.hash(), b.parent_hash()))
+                            .collect(),
+                    )
+                })
+                .collect(),
+            inner
+                .parents
+                .iter()
+                .map(|(h, p)| (h.clone(), p.clone()))
+                .collect(),
+            inner.leaders.iter().cloned().collect(),
+        )
+    }
+
+    /// `InnerPool::get_block` without the store look-up: is the hash answered by the two-step
+    /// `parents` / `blocks` look-up?
+    pub fn verif_get_block(&self, hash: &packed::Byte32) -> Option<(packed::Byte32, ParentHash)> {
+        self.inner
+            .read()
+            .get_block(hash)
+            .map(|b| (b.hash(), b.parent_hash()))
+    }
+}
